@@ -271,7 +271,7 @@ fn main() {
     });
 
     // S4: long digit strings
-    let lens: Vec<usize> = if tier.is_thorough() { vec![200, 300, 589, 590, 591, 1000, 3000] } else { vec![100, 300, 590, 1000] };
+    let lens: Vec<usize> = if tier.is_thorough() { vec![200, 300, 589, 590, 591, 1000, 1233, 1234, 2000, 3000, 5000, 10000] } else { vec![100, 300, 590, 1000, 1233, 1234, 2000, 4000] };
     run.bound("S4_lengths", json!(lens));
     run.par("S4 long digit strings", lens.len(), |i| {
         let mut t = Tally::default();
